@@ -1059,3 +1059,7 @@ func (g *Gen) makeWasm(k Kind, from *Account) *Item {
 	}
 	return nil
 }
+
+// ResetPending forgets everything generated since the last committed block
+// (for callers that build blocks which are never committed).
+func (g *Gen) ResetPending() { g.resetPending() }
